@@ -1,90 +1,110 @@
 ------------------------------ MODULE TcpBridge ------------------------------
 (***************************************************************************)
 (* TCP-over-websocket bridge (utils/tcpbridge): one bridged connection,    *)
-(* two directions.  In each direction: the source peer writes tokens, the  *)
-(* near bridge turns each TCP read into one websocket message, the far     *)
-(* bridge decodes messages and hands the bytes out in order (a partially   *)
-(* consumed message is kept in bufferedMsg), the far peer reads them.      *)
-(* Close handling: a copy loop ends when its source reports EOF; WaitBoth  *)
-(* (the code before the fix) closes the connections only after BOTH copy   *)
-(* loops of a bridge have ended.  C15 (integrity), C16 (close propagation).*)
+(* two directions, two bridge processes ("front" next to the TCP client,   *)
+(* "back" next to the TCP server).  Each bridge runs two copy loops:       *)
+(*   in-loop  io.Copy(ws, tcp): every TCP read becomes ONE websocket       *)
+(*            message;                                                     *)
+(*   out-loop io.Copy(tcp, ws): WebsocketNetConn.Read decodes messages and *)
+(*            hands the bytes out in order (a partially consumed message   *)
+(*            is kept in bufferedMsg).                                     *)
+(* Close handling (as in the code after the fix, Marker = TRUE): when an   *)
+(* in-loop ends (EOF from its TCP peer) the bridge sends CloseWrite - an   *)
+(* EMPTY message that travels in order behind the data; the other bridge's *)
+(* out-loop ends with io.EOF when it reads that message and half-closes    *)
+(* the TCP connection to its peer.  A bridge releases (closes) both of its *)
+(* connections when BOTH of its loops have ended.  Marker = FALSE is the   *)
+(* code before the fix: nothing is sent when a loop ends, so nothing is    *)
+(* closed until both peers have closed.  TCP peers half-close (they keep   *)
+(* reading); abortive closes exist only in the observable spec.           *)
+(* C15 (integrity), C16 (close propagation).                               *)
 (***************************************************************************)
 EXTENDS Naturals, Sequences, FiniteSets, TLC
 
 CONSTANTS N,          \* tokens each peer wants to send
           MaxSeg,     \* largest write / read size
-          WaitBoth    \* deviation: both copy directions must end before anything is closed
+          Marker      \* TRUE: CloseWrite marker + half-close (current code); FALSE: the code before the fix
 
 Dir == {"up", "down"}            \* up: client -> server, down: server -> client
 Other(d) == IF d = "up" THEN "down" ELSE "up"
+Bridge == {"front", "back"}
+InDir(b) == IF b = "front" THEN "up" ELSE "down"     \* direction served by the bridge's in-loop (tcp -> ws)
+OutDir(b) == Other(InDir(b))                          \* direction served by its out-loop (ws -> tcp)
+FIN == <<>>                                           \* the CloseWrite marker: an empty message
 
 VARIABLES next,       \* [Dir -> next token the source peer will write (1..N+1)]
-          wsq,        \* [Dir -> sequence of websocket messages (each a sequence of tokens)]
+          wsq,        \* [Dir -> sequence of websocket messages in flight (each a sequence of tokens)]
           buf,        \* [Dir -> bufferedMsg of the far bridge]
           rcvd,       \* [Dir -> tokens delivered to the far peer]
-          srcClosed,  \* [Dir -> the source peer of this direction has closed its socket]
-          inDone,     \* [Dir -> the near bridge's copy loop (tcp -> ws) of this direction has ended]
+          srcClosed,  \* [Dir -> the source peer of this direction has closed (its write side)]
+          inDone,     \* [Dir -> the in-loop of this direction has ended]
+          outDone,    \* [Dir -> the out-loop of this direction has ended]
+          released,   \* [Bridge -> the bridge has closed both of its connections]
           wsClosed,   \* the websocket has been closed (by either bridge)
-          outDone,    \* [Dir -> the far bridge's copy loop (ws -> tcp) of this direction has ended]
-          eof         \* [Dir -> the far peer of this direction has observed end-of-stream]
-vars == <<next, wsq, buf, rcvd, srcClosed, inDone, wsClosed, outDone, eof>>
+          eof,        \* [Dir -> the far peer of this direction has observed end-of-stream]
+          firstClosed \* (history) direction whose source peer closed first, "" if none
+vars == <<next, wsq, buf, rcvd, srcClosed, inDone, outDone, released, wsClosed, eof, firstClosed>>
 
 Init == /\ next = [d \in Dir |-> 1] /\ wsq = [d \in Dir |-> <<>>] /\ buf = [d \in Dir |-> <<>>]
         /\ rcvd = [d \in Dir |-> <<>>] /\ srcClosed = [d \in Dir |-> FALSE] /\ inDone = [d \in Dir |-> FALSE]
-        /\ wsClosed = FALSE /\ outDone = [d \in Dir |-> FALSE] /\ eof = [d \in Dir |-> FALSE]
+        /\ outDone = [d \in Dir |-> FALSE] /\ released = [b \in Bridge |-> FALSE] /\ wsClosed = FALSE
+        /\ eof = [d \in Dir |-> FALSE] /\ firstClosed = ""
 
 Range(a, b) == [k \in 1..(b - a + 1) |-> a + k - 1]
 
-Write(d, k) ==          \* the source peer writes k tokens; the near bridge forwards them as ONE message
+Write(d, k) ==          \* the source peer writes k tokens; the in-loop forwards them as ONE message
   /\ ~srcClosed[d] /\ ~inDone[d] /\ ~wsClosed /\ k \in 1..MaxSeg /\ next[d] + k - 1 <= N
   /\ wsq' = [wsq EXCEPT ![d] = Append(@, Range(next[d], next[d] + k - 1))]
   /\ next' = [next EXCEPT ![d] = @ + k]
-  /\ UNCHANGED <<buf, rcvd, srcClosed, inDone, wsClosed, outDone, eof>>
+  /\ UNCHANGED <<buf, rcvd, srcClosed, inDone, outDone, released, wsClosed, eof, firstClosed>>
 
-Refill(d) ==            \* WebsocketNetConn.Read: bufferedMsg empty -> decode the next message
-  /\ buf[d] = <<>> /\ wsq[d] # <<>> /\ ~outDone[d]
+PeerClose(d) ==         \* the source peer of direction d closes
+  /\ ~srcClosed[d]
+  /\ srcClosed' = [srcClosed EXCEPT ![d] = TRUE]
+  /\ firstClosed' = IF firstClosed = "" THEN d ELSE firstClosed
+  /\ UNCHANGED <<next, wsq, buf, rcvd, inDone, outDone, released, wsClosed, eof>>
+
+InEnds(d) ==            \* io.Copy(ws, tcp) returns: EOF from the peer, or the websocket is gone;
+                        \* closeWrite(ws) then sends the marker behind everything written so far
+  /\ ~inDone[d] /\ (srcClosed[d] \/ wsClosed)
+  /\ inDone' = [inDone EXCEPT ![d] = TRUE]
+  /\ wsq' = IF Marker /\ ~wsClosed THEN [wsq EXCEPT ![d] = Append(@, FIN)] ELSE wsq
+  /\ UNCHANGED <<next, buf, rcvd, srcClosed, outDone, released, wsClosed, eof, firstClosed>>
+
+Refill(d) ==            \* WebsocketNetConn.Read: bufferedMsg empty -> decode the next data message
+  /\ buf[d] = <<>> /\ wsq[d] # <<>> /\ Head(wsq[d]) # FIN /\ ~outDone[d]
   /\ buf' = [buf EXCEPT ![d] = Head(wsq[d])] /\ wsq' = [wsq EXCEPT ![d] = Tail(@)]
-  /\ UNCHANGED <<next, rcvd, srcClosed, inDone, wsClosed, outDone, eof>>
+  /\ UNCHANGED <<next, rcvd, srcClosed, inDone, outDone, released, wsClosed, eof, firstClosed>>
 
 Deliver(d, n) ==        \* ... and hand out min(n, len) bytes, keeping the rest
   /\ buf[d] # <<>> /\ n \in 1..MaxSeg /\ ~outDone[d]
   /\ LET m == IF n < Len(buf[d]) THEN n ELSE Len(buf[d]) IN
        /\ rcvd' = [rcvd EXCEPT ![d] = @ \o SubSeq(buf[d], 1, m)]
        /\ buf' = [buf EXCEPT ![d] = SubSeq(@, m + 1, Len(@))]
-  /\ UNCHANGED <<next, wsq, srcClosed, inDone, wsClosed, outDone, eof>>
+  /\ UNCHANGED <<next, wsq, srcClosed, inDone, outDone, released, wsClosed, eof, firstClosed>>
 
-PeerClose(d) ==         \* the source peer of direction d closes its TCP connection
-  /\ ~srcClosed[d]
-  /\ srcClosed' = [srcClosed EXCEPT ![d] = TRUE]
-  /\ UNCHANGED <<next, wsq, buf, rcvd, inDone, wsClosed, outDone, eof>>
-
-InEnds(d) ==            \* near bridge: io.Copy(ws, tcp) returns (EOF from the peer, or its own socket was closed)
-  /\ ~inDone[d] /\ (srcClosed[d] \/ eof[Other(d)])
-  /\ inDone' = [inDone EXCEPT ![d] = TRUE]
-  /\ UNCHANGED <<next, wsq, buf, rcvd, srcClosed, wsClosed, outDone, eof>>
-
-\* the near bridge of direction d is the far bridge of Other(d): its two loops are inDone[d] and outDone[Other(d)]
-BridgeMayClose(d) == IF WaitBoth THEN inDone[d] /\ outDone[Other(d)] ELSE inDone[d] \/ outDone[Other(d)]
-
-CloseWs(d) ==           \* the bridge whose inbound loop is d closes the websocket (deferred Close / fix: right away)
-  /\ ~wsClosed /\ BridgeMayClose(d)
-  /\ wsClosed' = TRUE
-  /\ UNCHANGED <<next, wsq, buf, rcvd, srcClosed, inDone, outDone, eof>>
-
-OutEnds(d) ==           \* far bridge: io.Copy(tcp, ws) returns once the websocket is closed and drained
-  /\ ~outDone[d] /\ wsClosed /\ wsq[d] = <<>> /\ buf[d] = <<>>
+OutEnds(d) ==           \* io.Copy(tcp, ws) returns: the marker was read (io.EOF), or the websocket is closed
+                        \* and drained; closeWrite(tcp) then half-closes the connection to the far peer
+  /\ ~outDone[d] /\ buf[d] = <<>>
+  /\ \/ /\ wsq[d] # <<>> /\ Head(wsq[d]) = FIN
+        /\ wsq' = [wsq EXCEPT ![d] = Tail(@)]
+     \/ /\ wsClosed /\ wsq[d] = <<>> /\ UNCHANGED wsq
   /\ outDone' = [outDone EXCEPT ![d] = TRUE]
-  /\ UNCHANGED <<next, wsq, buf, rcvd, srcClosed, inDone, wsClosed, eof>>
+  /\ eof' = IF Marker THEN [eof EXCEPT ![d] = TRUE] ELSE eof
+  /\ UNCHANGED <<next, buf, rcvd, srcClosed, inDone, released, wsClosed, firstClosed>>
 
-FarClose(d) ==          \* the far bridge closes the far peer's socket: the peer observes EOF
-  /\ ~eof[d] /\ BridgeMayClose(Other(d)) /\ outDone[d]
-  /\ eof' = [eof EXCEPT ![d] = TRUE]
-  /\ UNCHANGED <<next, wsq, buf, rcvd, srcClosed, inDone, wsClosed, outDone>>
+Release(b) ==           \* wg.Wait() returns: the deferred Close of both connections runs
+  /\ ~released[b] /\ inDone[InDir(b)] /\ outDone[OutDir(b)]
+  /\ released' = [released EXCEPT ![b] = TRUE] /\ wsClosed' = TRUE
+  /\ eof' = [eof EXCEPT ![OutDir(b)] = TRUE]
+  /\ UNCHANGED <<next, wsq, buf, rcvd, srcClosed, inDone, outDone, firstClosed>>
 
-Next == \E d \in Dir : PeerClose(d) \/ InEnds(d) \/ CloseWs(d) \/ OutEnds(d) \/ FarClose(d) \/ Refill(d)
-                       \/ (\E k \in 1..MaxSeg : Write(d, k) \/ Deliver(d, k))
-Fair == \A d \in Dir : /\ WF_vars(InEnds(d)) /\ WF_vars(CloseWs(d)) /\ WF_vars(OutEnds(d)) /\ WF_vars(FarClose(d))
-                       /\ WF_vars(Refill(d)) /\ WF_vars(\E k \in 1..MaxSeg : Deliver(d, k))
+Next == \/ \E d \in Dir : PeerClose(d) \/ InEnds(d) \/ OutEnds(d) \/ Refill(d)
+                          \/ (\E k \in 1..MaxSeg : Write(d, k) \/ Deliver(d, k))
+        \/ \E b \in Bridge : Release(b)
+Fair == /\ \A d \in Dir : /\ WF_vars(InEnds(d)) /\ WF_vars(OutEnds(d))
+                          /\ WF_vars(Refill(d)) /\ WF_vars(\E k \in 1..MaxSeg : Deliver(d, k))
+        /\ \A b \in Bridge : WF_vars(Release(b))
 Spec == Init /\ [][Next]_vars /\ Fair
 
 Sent(d) == Range(1, next[d] - 1)
@@ -97,4 +117,18 @@ Complete == \A d \in Dir : []((~srcClosed["up"] /\ ~srcClosed["down"]) => <>(rcv
 ClosePropagates == \A d \in Dir : srcClosed[d] ~> (eof[d] /\ rcvd[d] = Sent(d))
 \* C16: no data is lost by the close itself
 NoLossOnClose == \A d \in Dir : eof[d] => (srcClosed[d] => rcvd[d] = Sent(d))
+\* C16: once both peers have closed, both bridges let go of everything
+AllReleased == (srcClosed["up"] /\ srcClosed["down"]) ~> (released["front"] /\ released["back"])
+\* the websocket is closed only by a bridge whose two loops have ended
+CloseOnlyWhenDone == wsClosed => \E b \in Bridge : released[b]
+
+(* ---- refinement: the bridge implements the observable behaviour TcpBridgeObs (one connection) ---- *)
+Obs == INSTANCE TcpBridgeObs WITH Conn <- {"c"},
+         osent <- [c \in {"c"} |-> [d \in Dir |-> next[d] - 1]],
+         orcvd <- [c \in {"c"} |-> [d \in Dir |-> Len(rcvd[d])]],
+         oclosed <- [c \in {"c"} |-> srcClosed],
+         oeof <- [c \in {"c"} |-> eof],
+         ofirst <- [c \in {"c"} |-> firstClosed],
+         oabort <- [c \in {"c"} |-> FALSE]
+ImplementsObs == Obs!OSpec
 =============================================================================
